@@ -1,0 +1,247 @@
+//go:build verif
+
+package pals
+
+// Randomised stand-in for C15: PALS is run on random backgrounds with one planted repeat; every reported hit is
+// checked for soundness and the planted copy must be recovered. Only compiled with -tags verif.
+// (The file name starts with verif_bounded so that the checker in /verif finds the test.)
+
+import (
+	"fmt"
+	"math/rand"
+	"os"
+	"strconv"
+	"testing"
+
+	"github.com/biogo/biogo/align/pals/dp"
+	"github.com/biogo/biogo/align/pals/filter"
+	"github.com/biogo/biogo/alphabet"
+	"github.com/biogo/biogo/morass"
+	"github.com/biogo/biogo/seq/linear"
+)
+
+func verifRandDNA(rnd *rand.Rand, n int) []byte {
+	b := make([]byte, n)
+	for i := range b {
+		b[i] = "ACGT"[rnd.Intn(4)]
+	}
+	return b
+}
+
+func verifRevComp(b []byte) []byte {
+	c := map[byte]byte{'A': 'T', 'C': 'G', 'G': 'C', 'T': 'A'}
+	out := make([]byte, len(b))
+	for i := range b {
+		out[len(b)-1-i] = c[b[i]]
+	}
+	return out
+}
+
+// verifMutate copies src with about (1-id) substitutions and, when indels is set, a few single-letter indels.
+func verifMutate(rnd *rand.Rand, src []byte, id float64, indels bool) []byte {
+	var out []byte
+	for _, l := range src {
+		switch {
+		case rnd.Float64() > id:
+			for {
+				m := "ACGT"[rnd.Intn(4)]
+				if m != l {
+					out = append(out, m)
+					break
+				}
+			}
+		case indels && rnd.Intn(120) == 0:
+			// deletion
+		case indels && rnd.Intn(120) == 0:
+			out = append(out, l, "ACGT"[rnd.Intn(4)])
+		default:
+			out = append(out, l)
+		}
+	}
+	return out
+}
+
+// verifGlobal: optimal global alignment score with match +1, mismatch -3, indel -3.
+func verifGlobalScore(a, b []alphabet.Letter) int {
+	prev := make([]int, len(b)+1)
+	cur := make([]int, len(b)+1)
+	for j := range prev {
+		prev[j] = -3 * j
+	}
+	for i := 1; i <= len(a); i++ {
+		cur[0] = -3 * i
+		for j := 1; j <= len(b); j++ {
+			s := -3
+			if a[i-1]|0x20 == b[j-1]|0x20 {
+				s = 1
+			}
+			best := prev[j-1] + s
+			if v := prev[j] - 3; v > best {
+				best = v
+			}
+			if v := cur[j-1] - 3; v > best {
+				best = v
+			}
+			cur[j] = best
+		}
+		prev, cur = cur, prev
+	}
+	return prev[len(b)]
+}
+
+func verifSeq(id string, b []byte) *linear.Seq {
+	return linear.NewSeq(id, alphabet.BytesToLetters(append([]byte(nil), b...)), alphabet.DNA)
+}
+
+type verifPlant struct {
+	tStart, tEnd int // planted copy in the target
+	qStart, qEnd int // its image in the query (forward coordinates of the query as given)
+	revcomp      bool
+}
+
+// verifRunPALS runs both strands and checks soundness of every hit; returns whether the plant was recovered.
+func verifRunPALS(target, query *linear.Seq, self bool, minLen int, minID float64, plant *verifPlant) (hits int, recovered bool, err error) {
+	m, merr := morass.New(filter.Hit{}, "", "", 1<<16, false)
+	if merr != nil {
+		return 0, false, merr
+	}
+	defer m.CleanUp()
+	mem := uintptr(1 << 25) // keeps Optimise from choosing k-mer tables of gigabytes
+	p := New(target, query, self, m, 0, &mem, nil)
+	if err := p.Optimise(minLen, minID); err != nil {
+		return 0, false, fmt.Errorf("Optimise: %v", err)
+	}
+	if err := p.BuildIndex(); err != nil {
+		return 0, false, err
+	}
+	for _, comp := range []bool{false, true} {
+		var hs dp.Hits
+		hs, err = p.Align(comp)
+		if err != nil {
+			return hits, false, fmt.Errorf("Align(%v): %v", comp, err)
+		}
+		work := query
+		if comp {
+			work = query.Clone().(*linear.Seq)
+			work.RevComp()
+		}
+		for _, h := range hs {
+			hits++
+			if h.Abpos < 0 || h.Abpos > h.Aepos || h.Aepos > target.Len() || h.Bbpos < 0 || h.Bbpos > h.Bepos || h.Bepos > work.Len() {
+				return hits, false, fmt.Errorf("hit %+v (complement=%v) lies outside the sequences (%d, %d)", h, comp, target.Len(), work.Len())
+			}
+			if h.Aepos-h.Abpos < minLen || h.Bepos-h.Bbpos < minLen {
+				return hits, false, fmt.Errorf("hit %+v (complement=%v) is shorter than the minimum hit length %d", h, comp, minLen)
+			}
+			if h.Error > 1-minID+1e-9 {
+				return hits, false, fmt.Errorf("hit %+v (complement=%v) reports error above %v", h, comp, 1-minID)
+			}
+			if opt := verifGlobalScore(target.Seq[h.Abpos:h.Aepos], work.Seq[h.Bbpos:h.Bepos]); h.Score > opt {
+				return hits, false, fmt.Errorf("hit %+v (complement=%v) reports score %d above the optimal global score %d of its regions", h, comp, h.Score, opt)
+			}
+			if self && !comp && h.Abpos == h.Bbpos && h.Aepos == h.Bepos {
+				return hits, false, fmt.Errorf("self comparison reports the trivial self match %+v", h)
+			}
+			if plant != nil && comp == plant.revcomp {
+				qs, qe := plant.qStart, plant.qEnd
+				if comp {
+					qs, qe = query.Len()-plant.qEnd, query.Len()-plant.qStart
+				}
+				ovT := verifMin(h.Aepos, plant.tEnd) - verifMax(h.Abpos, plant.tStart)
+				ovQ := verifMin(h.Bepos, qe) - verifMax(h.Bbpos, qs)
+				if 10*ovT >= 8*(plant.tEnd-plant.tStart) && 10*ovQ >= 8*(qe-qs) {
+					recovered = true
+				}
+			}
+		}
+	}
+	return hits, recovered, nil
+}
+
+func verifMin(a, b int) int {
+	if a < b {
+		return a
+	}
+	return b
+}
+func verifMax(a, b int) int {
+	if a > b {
+		return a
+	}
+	return b
+}
+
+// TestVerifBounded_C15_PlantedRepeats: soundness of every hit and recall of a planted repeat.
+func TestVerifBounded_C15_PlantedRepeats(t *testing.T) {
+	seed, _ := strconv.Atoi(os.Getenv("VERIF_SEED"))
+	rnd := rand.New(rand.NewSource(int64(seed) + 15))
+	runs, maxBg := 24, 4000
+	if os.Getenv("VERIF_TIER") == "thorough" {
+		runs, maxBg = 150, 12000
+	}
+	cases, nontrivial, totalHits := 0, 0, 0
+	failed := 0
+	for k := 0; k < runs; k++ {
+		bgT, bgQ := 2000+rnd.Intn(maxBg-2000+1), 2000+rnd.Intn(maxBg-2000+1)
+		L := 300 + rnd.Intn(500)
+		minLen := []int{100, 150, 200}[rnd.Intn(3)]
+		minID := []float64{0.85, 0.9, 0.95}[rnd.Intn(3)]
+		kind := rnd.Intn(3) // exact, substitutions, substitutions and small indels
+		id := 1.0
+		if kind > 0 {
+			id = minID + (1-minID)*0.6 // comfortably above the threshold
+		}
+		tb := verifRandDNA(rnd, bgT)
+		qb := verifRandDNA(rnd, bgQ)
+		ts := rnd.Intn(bgT - L)
+		copyT := tb[ts : ts+L]
+		img := verifMutate(rnd, copyT, id, kind == 2)
+		rc := rnd.Intn(2) == 1
+		if rc {
+			img = verifRevComp(img)
+		}
+		qs := rnd.Intn(bgQ)
+		qb = append(append(append([]byte(nil), qb[:qs]...), img...), qb[qs:]...)
+		plant := &verifPlant{tStart: ts, tEnd: ts + L, qStart: qs, qEnd: qs + len(img), revcomp: rc}
+		cases++
+		hits, rec, err := verifRunPALS(verifSeq("t", tb), verifSeq("q", qb), false, minLen, minID, plant)
+		totalHits += hits
+		desc := fmt.Sprintf("run %d: target %d, query %d, repeat length %d at target %d / query %d, identity %.3f, indels=%v, revcomp=%v, minLen %d, minId %.2f", k, bgT, len(qb), L, ts, qs, id, kind == 2, rc, minLen, minID)
+		switch {
+		case err != nil:
+			failed++
+			if failed <= 8 {
+				t.Errorf("%s: %v", desc, err)
+			}
+		case !rec:
+			failed++
+			if failed <= 8 {
+				t.Errorf("%s: planted repeat not recovered (%d hits)", desc, hits)
+			}
+		default:
+			nontrivial++
+		}
+	}
+	// self comparison: a sequence with an internal repeat; the trivial self match must not be reported
+	for k := 0; k < runs/4+1; k++ {
+		n := 3000 + rnd.Intn(2000)
+		b := verifRandDNA(rnd, n)
+		L := 300 + rnd.Intn(300)
+		from := rnd.Intn(n/2 - L)
+		to := n/2 + rnd.Intn(n/2-L)
+		copy(b[to:to+L], b[from:from+L])
+		s := verifSeq("s", b)
+		cases++
+		hits, _, err := verifRunPALS(s, s, true, 100, 0.9, nil)
+		totalHits += hits
+		if err != nil {
+			failed++
+			if failed <= 8 {
+				t.Errorf("self comparison %d (length %d, repeat %d from %d to %d): %v", k, n, L, from, to, err)
+			}
+		} else if hits > 0 {
+			nontrivial++
+		}
+	}
+	fmt.Printf("BOUNDED name=C15.planted cases=%d nontrivial=%d exhaustive=false domain=\"seeded random: %d target/query pairs of random DNA (2..%d kb) with one planted repeat of length 300..800 (exact, substitutions, substitutions+indels; forward or reverse complement), minimum length 100/150/200, minimum identity 0.85/0.9/0.95, plus self comparisons with an internal repeat; %d hits checked for bounds, minimum length, error bound and score <= optimal global score (+1/-3/-3) of the hit regions; the planted copy must be 80%% covered by one hit in both sequences\"\n", cases, nontrivial, runs, maxBg/1000, totalHits)
+}
